@@ -1,3 +1,4 @@
 SPECIFICATION TSpec
+CONSTANTS TPS = 10
 CONSTRAINT Done
 CHECK_DEADLOCK FALSE
